@@ -12,6 +12,7 @@ def clean():
 meta = json.load(open(os.path.join(sd, "meta.json")))
 tests = glob.glob(os.path.join(sd, "*_test.go"))
 res = {"seed": sd}
+res["base"] = sh("git rev-parse --short HEAD", wt)[1].strip()
 clean()
 if tests:
     demo = tests[0]
